@@ -1,6 +1,7 @@
 package main
 
 import (
+	"strings"
 	"flag"
 	"fmt"
 	"os"
@@ -61,6 +62,10 @@ func seqSpecFor(id, tier string) *SeqSpec {
 }
 
 // exploreGroups: schedule-exploration parts of a property (group name -> preemption bounds per tier)
+// unboundedPass: scenario groups that are also explored without a preemption bound under the
+// sleep-set reduction, and in which tiers
+var unboundedPass = map[string]string{}
+
 type exploreGroup struct {
 	name           string
 	quick, thorough int
@@ -139,7 +144,24 @@ func runCheck(id, tier string) int {
 			if tier == "thorough" {
 				bound = g.thorough
 			}
-			runExplore(id, g.name, exploreScenarios(id, g.name, tier), bound, tier, rep)
+			all := exploreScenarios(id, g.name, tier)
+			tiers, unb := unboundedPass[id+"/"+g.name]
+			unb = unb && strings.Contains(tiers, tier)
+			instead := unb && strings.Contains(tiers, "instead")
+			// bounded pass (with "instead": only the scenarios the unbounded pass leaves out)
+			nb := 0
+			for _, sc := range all {
+				if !instead || sc.BoundedOnly {
+					nb++
+				}
+			}
+			if nb > 0 {
+				runExploreSel(id, g.name, all, bound, tier, rep, func(sc *Scenario) bool { return !instead || sc.BoundedOnly })
+			}
+			// unbounded pass: every schedule (no preemption bound) modulo commuting steps
+			if unb {
+				runExploreSel(id, g.name, all, -1, tier, rep, func(sc *Scenario) bool { return !sc.BoundedOnly })
+			}
 		}
 		ran = true
 	}
